@@ -56,7 +56,7 @@ def build_factor(case, idx, objs):
 
     def mk_pred(l):
         acc = set(tuple(a) for a in f["acc"][l])
-        if dkind == "within":
+        if dkind == "within" or width == 1:     # width-1 windows receive plain level names, like WithinTrial
             def pred(*args, _acc=acc):
                 t = tuple(_enc_arg(d, a) for d, a in zip(depdescs, args))
                 return t in _acc
